@@ -33,13 +33,15 @@ P["C07"]=dict(level="other",
  quick=dict(harnesses=c07h, jobs=4, workers=4),
  thorough=dict(harnesses=c07h, jobs=4, workers=4))
 
-P["C09"]=dict(level="other",
+P["C09"]=dict(level="other", technique="bounded symbolic execution (inductive step with an arbitrary hash function) + bounded model checking of the background-build composition",
  explanation="The C07 step harness with the injectivity assumption on the (uninterpreted, hence arbitrary) hash removed: any two of the keys in play may share their 64-bit hash. Read/Write/Delete on key k must never return, report as stale or delete the entry of a different key k' (the reference model only lets a Write take over the hash slot of a colliding key, i.e. a collision costs at most a miss), and after Write the caller's key buffer is overwritten with arbitrary bytes before the post-state is compared (no reference to the caller's slice is kept). Label indexing with a reused buffer is covered in the C15 harness; the Failover background-build buffer reuse is covered by verifH_C09_FailoverBuffer.",
  bounds="as C07, ShardedMap and ShardedMapOf[int] (SyncMap is keyed by the full string, see C07); Read/Write/Delete",
  outside="keys longer than 2 bytes; real 64-byte xxhash collisions are subsumed by the arbitrary hash function but not replayed with the real hash",
  assumptions=["xxhash.Sum64 is an uninterpreted function (any hash function)","representation invariant assumed for the pre-state: at most one entry per hash slot"],
- quick=dict(harnesses=["verifH_C09_ShardedMapOf_keyed","verifH_C09_ShardedMapOf_batch","verifH_C09_ShardedMapOf_ls"], jobs=3, workers=10),
- thorough=dict(harnesses=["verifH_C09_ShardedMap_keyed","verifH_C09_ShardedMap_batch","verifH_C09_ShardedMap_ls","verifH_C09_ShardedMapOf_keyed","verifH_C09_ShardedMapOf_batch","verifH_C09_ShardedMapOf_ls"], jobs=3, workers=5))
+ quick=dict(harnesses=["verifH_C09_ShardedMapOf_keyed","verifH_C09_ShardedMapOf_batch","verifH_C09_ShardedMapOf_ls"], jobs=3, workers=10,
+   l2=["verifL_Failover_1_env:l2","verifL_FailoverOf_1_env:l2"], l2_labels="stored under the key its Get|no key lock remains", l2_jobs=2, l2_par=16),
+ thorough=dict(harnesses=["verifH_C09_ShardedMap_keyed","verifH_C09_ShardedMap_batch","verifH_C09_ShardedMap_ls","verifH_C09_ShardedMapOf_keyed","verifH_C09_ShardedMapOf_batch","verifH_C09_ShardedMapOf_ls"], jobs=3, workers=5,
+   l2=["verifL_Failover_1_env:l2","verifL_FailoverOf_1_env:l2","verifL_Failover_2_env:l2","verifL_FailoverOf_2_env:l2"], l2_labels="stored under the key its Get|no key lock remains", l2_jobs=2, l2_par=16, l2_timeout=600))
 
 P["C15"]=dict(level="other",
  explanation="Real NewInvalidationIndex/AddCache/AddLabels/AddInvalidationLabels/InvalidateByLabels/invalidateByLabels(+deferred put-back)/cutKeys executed symbolically with scripted deleter stubs: the key/label incidence bits, repeated labelling, label argument order and multiplicity, an ErrNotFound answer, the position of a failing Delete call (in either of two deleters), map iteration order (2 permutations) are solver variables the code branches on; every index/slice bound and explicit panic is an obligation. After a nil return every labelled key was passed to every deleter of its name exactly once, no other key was, count = removed entries; on failure the deleter's error is returned and a retry after recovery removes every labelled key. A second harness uses the real ShardedMap/SyncMap/ShardedMapOf Delete as deleter.",
@@ -117,9 +119,13 @@ def fo(pid, what, labels, seq=None, extra_expl="", level="model_checking", quick
 fo("C01","Ghost counters updated atomically at builder entry/exit assert that no schedule puts two builder invocations for the same key in flight at once.",
    "at most one build per key in flight")
 fo("C02","When a Get returns, a provenance oracle (evaluated atomically with ghost state recording which builder invocations finished with which outcome) asserts: a nil-error value is the key's initially stored value or the token of a finished successful build for that key; an error is a finished failing build's error for that key (or an injected backend fault). The sequential harness additionally injects backend read/write faults at every call position of a lone Get on both APIs.",
-   "a value returned with nil error|an error returned was produced|get returned", seq=["verifH_C02_SeqFaults","verifH_C02_SeqFaultsOf"])
+   "a value returned with nil error|an error returned was produced|get returned", seq=["verifH_C02_SeqFaults","verifH_C02_SeqFaultsOf"],
+   quick_l2=FOQ+["verifL_Failover_2_faults:l2","verifL_FailoverOf_2_faults:l2"])
 fo("C04","Every schedule is checked for deadlock (a maximal execution in which a thread rests at a Lock or channel receive that the final state does not let through), for close of a closed channel and unlock of an unlocked mutex; at quiescence (all Gets and background builds finished) the key-lock map is empty and no build is in flight.",
-   "no key lock remains|no build in flight|auto:|quiescence")
+   "no key lock remains|no build in flight|auto:no-deadlock|auto:close|quiescence|never observes the caller|stored under the key its Get",
+   quick_l2=FOQ+["verifL_Failover_1_env:l2","verifL_FailoverOf_1_env:l2"], thorough_l2=FOT+["verifL_Failover_2_env:l2","verifL_FailoverOf_2_env:l2"],
+   extra_expl=" The *_env harnesses let the caller overwrite its key buffer with the other key and cancel its context right after Get returned (variables captured by the background goroutine become shared state from the go statement on): the build never observes the cancellation, the built value is stored under the key Get was called with and the lock of that key is released.")
+P["C04"]["thorough"]["l2_labels"]="no key lock remains|no build in flight|auto:|quiescence|never observes the caller|stored under the key its Get"
 fo("C05","With SyncRead enabled (and no injected faults) no builder invocation for a key starts after a build for that key has succeeded, under every schedule. The failure-suppression half is decided sequentially (verifH_C05_*): after a failed build the cached error is served without invoking the builder while t2-t1 is inside the failure TTL window, the builder is invoked again after it, and always with FailedUpdateTTL=-1.",
    "SyncRead: no build starts", seq=["verifH_C05_Failover:int","verifH_C05_FailoverOf:int"])
 
